@@ -129,7 +129,7 @@ class SLock:
 
 
 def run_schedule(tid, nthreads, k, picker, rng, broken_lock=False, client_name="tcp", units_differ=False, drop_first_of=0,
-                 connfail_first=False, slow=False, broadcaster=0):
+                 connfail_first=False, slow=False, broadcaster=0, badreq=0):
     """drop_first_of = t: the peer does not answer thread t's first transmission (the client retries after a back-off sleep);
     connfail_first: the very first connection attempt fails (that caller gets a ConnectionException, the others must go on)"""
     clock = C.VClock()
@@ -225,6 +225,20 @@ def run_schedule(tid, nthreads, k, picker, rng, broken_lock=False, client_name="
                         want = 100 * t + j
                         res = {"th": t, "want": want, "gotv": -1, "kind": "none"}
                         try:
+                            if t == badreq and j == 0:
+                                # this caller hands over a request that cannot be encoded (a register value beyond 16 bits): its call
+                                # fails with an exception - that is the caller's problem - and nobody else may be affected by it
+                                from pymodbus.register_write_message import WriteSingleRegisterRequest as _W
+                                try:
+                                    client.execute(_W(want, 70000, unit=1))
+                                    res["kind"] = "other:accepted"
+                                except Abort:
+                                    raise
+                                except Exception:
+                                    res["kind"] = "badreq"
+                                calls.append(res)
+                                sched.events.append({"th": t, "op": "done", "res": "error"})
+                                continue
                             if t == broadcaster:
                                 # this caller broadcasts (unit 0, broadcast_enable): a transmission without a reply - it still is a
                                 # transaction of the shared client and must not be sent into another caller's transaction
@@ -273,7 +287,7 @@ def run_schedule(tid, nthreads, k, picker, rng, broken_lock=False, client_name="
     return {"id": tid, "nthreads": nthreads, "k": k, "ev": sched.events, "calls": calls,
             "frames": [list(f) for f in frames], "connfail": 1 if connfail_first else 0,
             # executions the implementation-shaped model describes: the TCP client with a working connect and the real lock
-            "refine": 1 if (client_name == "tcp" and not connfail_first and not broken_lock and not broadcaster) else 0}
+            "refine": 1 if (client_name == "tcp" and not connfail_first and not broken_lock and not broadcaster and not badreq) else 0}
 
 
 def pickers(nthreads, rng, tier):
@@ -375,6 +389,12 @@ def run(prop, tier):
         ps = pickers(nt, rng, "quick")
         for j, p in enumerate(ps[::4] if tier == "quick" else ps):
             traces.append(run_schedule("q%d" % k, nt, kk, p, rng, units_differ=(j % 2 == 1), broadcaster=1 + j % nt))
+            k += 1
+    # one caller's first request cannot be encoded: its call raises, the others' transactions go on
+    for nt, kk in ([(3, 2)] if tier == "quick" else [(2, 2), (3, 2), (4, 2)]):
+        ps = pickers(nt, rng, "quick")
+        for j, p in enumerate(ps[::5] if tier == "quick" else ps):
+            traces.append(run_schedule("e%d" % k, nt, kk, p, rng, units_differ=(j % 2 == 1), badreq=1 + j % nt))
             k += 1
     # the same on a serial RTU client (its send path waits on the client state and the silent interval: more yield points)
     for nt, kk in ([(2, 2), (3, 2)] if tier == "quick" else [(2, 2), (3, 2), (4, 2)]):
